@@ -32,6 +32,27 @@ def balanced(s):
     return depth == 0
 
 
+def never_negative(s):
+    """Like balanced(), but groups may stay open at the end: the brace depth is defined at every position (never below
+    zero), which is all the separator rule needs ('at brace depth 0')."""
+    depth = 0
+    i = 0
+    n = len(s)
+    while i < n:
+        c = s[i]
+        if c == "\\":
+            i += 2
+            continue
+        if c == "{":
+            depth += 1
+        elif c == "}":
+            depth -= 1
+            if depth < 0:
+                return False
+        i += 1
+    return True
+
+
 def words_depth0(s, ws):
     """[(start, end)] of maximal runs of non-whitespace where whitespace only counts at brace depth 0
     and escaped characters are ordinary."""
